@@ -51,6 +51,38 @@ CLAIMED = {
                 "case-insensitive file lookup are not part of the generated "
                 "graphs.",
     },
+    "C12": {
+        "ref": "DESIGN.md §4.5",
+        "technique": "deterministic simulation of the nondeterminism "
+                     "sources: same program batch in fresh processes under "
+                     "chosen PYTHONHASHSEEDs x permuted construction order "
+                     "x insert/delete history, observable digests diffed",
+        "text": "The simulator owns the three sources the property names: "
+                "the string-hash seed and process (the same generated batch "
+                "runs in 8 (thorough: 32) fresh interpreter processes under "
+                "distinct PYTHONHASHSEEDs), construction order (variants "
+                "inserting the same elements in a permuted order) and "
+                "history (variants that insert extra elements and remove "
+                "them again). Programs push sets and maps of strings, "
+                "colliding ints, mixed scalars and nested lists through a "
+                "sink catalogue that is enumerated completely every run "
+                "(every iteration, comprehension, spread, destructuring, "
+                "rendering, conversion and operator form, and every function "
+                "of the legacy base environment and bundled modules with the "
+                "container in each argument position). Oracle: the digest of "
+                "(stdout, rendered result, error value/message/position) is "
+                "identical in every process and variant; differences are "
+                "re-confirmed one program at a time in brand-new processes. "
+                "A program counts as non-trivial only if the container's raw "
+                "internal order was actually observed to differ. Evidence, "
+                "not proof.",
+        "note": "Trusted: CPython's PYTHONHASHSEED is the only per-process "
+                "source of set/dict order variation; the generator is "
+                "hash-seed independent (checked every run). Known finding "
+                "(not repaired, listed in known_findings.json): containers "
+                "mixing numbers with dates sort intransitively. Equal values "
+                "with two spellings (1 / 1.0) are never put in one container.",
+    },
     "C13": {
         "ref": "DESIGN.md §4.6",
         "technique": "deterministic simulation: seeded stateful sessions "
@@ -109,7 +141,6 @@ CLAIMED = {
 
 PENDING = {
     "C09": "claimed in DESIGN.md §4.2; check not built yet",
-    "C12": "claimed in DESIGN.md §4.5; check not built yet",
 }
 
 
